@@ -507,7 +507,7 @@ func sweepSingle(yield func(layoutCase) bool) {
 }
 
 func props() []rp.Prop {
-	return []rp.Prop{rp.P[layoutCase]{Name: "layout", Checks: ev.Pick(12000, 100000) / ev.Shards(), Gen: genLayout, Sweep: sweepSingle, Check: check}}
+	return []rp.Prop{rp.P[layoutCase]{Name: "layout", Checks: ev.Pick(12000, 400000) / ev.Shards(), Gen: genLayout, Sweep: sweepSingle, Check: check}}
 }
 
 func TestC18(t *testing.T)    { rp.RunAll(t, props()...) }
